@@ -248,7 +248,9 @@ def share_idiom(prog, chk, rid, fams=tuple(FAMILIES), floor=10):
                         good = C.paths_all_pass(f, w.pos, ipos | skip) and bool(ipos)
                     else:
                         od = set(p_ for p_, _r in cases if p_ is not None and p_ != dpos_)
-                        good = bool(ipos) and f.find_path(dpos_, {f.exit_pos()}, avoid=ipos | skip | od) is None
+                        good = bool(ipos) and (f.find_path(dpos_, {f.exit_pos()}, avoid=ipos | skip | od) is None or
+                                               # counted first, then kept: every path to this definition has passed the increment
+                                               f.find_path(f.entry_pos(), {dpos_}, avoid=(ipos | skip) - {dpos_}, after_src=False) is None)
                     if good:
                         chk.ok(rid, f, "share of %s counted" % rt[:40], where, "Atomic::increment on every path through the store", evals=2)
                     else:
